@@ -1152,12 +1152,8 @@ def builtin_getattr(I, o, name):
                             d[hashable(kk)] = vv
                 d.update(k)
             return Builtin("dict.update", upd)
-        if name == "items":
-            return Builtin("dict.items", lambda I_, a, k: [(kk, vv) for kk, vv in d.items()])
-        if name == "keys":
-            return Builtin("dict.keys", lambda I_, a, k: list(d.keys()))
-        if name == "values":
-            return Builtin("dict.values", lambda I_, a, k: list(d.values()))
+        if name in ("items", "keys", "values"):
+            return Builtin("dict." + name, lambda I_, a, k: DictView(d, name))
         if name == "copy":
             return Builtin("dict.copy", lambda I_, a, k: dict(d))
         if name == "pop":
@@ -1806,6 +1802,74 @@ def make_builtins(I):
     B["Ellipsis"] = None
     B["__name__"] = "__main__"
     return B
+
+
+class DictView(Ext):
+    """d.keys() / d.values() / d.items(): LIVE views of the dictionary (they show later changes); keys and items views
+    support the set operations (results are sets), values views do not"""
+
+    def __init__(self, d, kind):
+        self.d, self.kind = d, kind
+        self.type_name = f"dict_{kind}"
+
+    def _now(self):
+        if self.kind == "keys":
+            return list(self.d.keys())
+        if self.kind == "values":
+            return list(self.d.values())
+        return [(k, v) for k, v in self.d.items()]
+
+    def py_iter(self, I):
+        return iter(self._now())
+
+    def py_len(self, I):
+        return len(self.d)
+
+    def py_truth(self, I):
+        return len(self.d) > 0
+
+    def py_contains(self, I, item):
+        if self.kind == "keys":
+            return dict_key(I, self.d, item) in self.d
+        return contains(I, self._now(), item)
+
+    def py_isinstance(self, I, cls):
+        return False
+
+    def _as_set(self, I, other):
+        if isinstance(other, DictView):
+            if other.kind == "values":
+                return None
+            return PySet(other._now())
+        if isinstance(other, PySet):
+            return other
+        if isinstance(other, (list, tuple)) or hasattr(other, "py_iter"):
+            return PySet(iterate(I, other))
+        return None
+
+    def py_binop(self, I, op, other, reflected):
+        if self.kind == "values" or op not in ("|", "&", "-", "^"):
+            return NotImplemented
+        o = self._as_set(I, other)
+        if o is None:
+            return NotImplemented
+        me = PySet(self._now())
+        return o.py_binop(I, op, me, False) if reflected else me.py_binop(I, op, o, False)
+
+    def py_compare(self, I, op, other, reflected):
+        if self.kind == "values":
+            return NotImplemented if op not in ("Eq", "NotEq") else (op == "NotEq") != (other is self)
+        o = self._as_set(I, other) if isinstance(other, (DictView, PySet)) else None
+        if o is None:
+            if op in ("Eq", "NotEq"):
+                return op == "NotEq"
+            return NotImplemented
+        return PySet(self._now()).py_compare(I, op, o, reflected)
+
+    def py_getattr(self, I, name):
+        if name == "isdisjoint" and self.kind != "values":
+            return Builtin("dict_view.isdisjoint", lambda I_, a, k: not any(contains(I_, self._now(), x) is True for x in iterate(I_, a[0])))
+        raise Unsupported(f"dict_{self.kind}.{name}")
 
 
 class DefaultDict(dict):
